@@ -24,6 +24,11 @@ def harnesses():
             H("c11_redc1_small_mul_7", "C11", "c11::redc1_small::<0,7>", unwind=8, tier="thorough", timeout=3600, inst="mul_redc::<1>",
               domain="every odd modulus 3..=127, every a, b < m (8-bit moduli, 24 free bits, did not finish in 1500 s)",
               free_bits=20, fns=["algorithms::mul_redc"], role="c11::redc1_small", covers_required=["zero-divisors"]),
+            H("c11_redc2_diff", "C11", "c11::redc2_diff", unwind=8, tier="quick", timeout=3600, inst="mul_redc::<2>, square_redc::<2>",
+              domain="N = 2 LATTICE (14 free bits): m = [2^64-1-2x, w], a = [w, w] < m with every w one of {0, 2^62, 2^63, 2^64-1} +/- a 2-bit "
+                     "offset; differential oracle square_redc(a) = mul_redc(a, a), result < m", free_bits=14,
+              fns=["algorithms::mul_redc", "algorithms::square_redc"], role="c11::redc2_diff",
+              covers_required=["top-limb-high", "top-limb-low"]),
             H("c11_redc1_small_square", "C11", "c11::redc1_small::<1,8>", unwind=8, tier="quick", timeout=3600,
               inst="square_redc::<1>", domain="every odd modulus 3..=255, every a < m; oracle: r < m and r * 2^64 = a * a (mod m)",
               free_bits=15, fns=["algorithms::square_redc"], role="c11::redc1_small", covers_required=["zero-divisors"])]
